@@ -311,6 +311,8 @@ def run(ctx):
 
 
 def _run(ctx):
+    import time as _t
+    _t0 = _t.time()
     C.coq_lib()
     ctx.trusted = TRUSTED
     ctx.coq_file(os.path.join(C.COQ, "props", "C10.v"))
@@ -327,6 +329,7 @@ def _run(ctx):
     ctx.obligation("cencoding.pyx lines embedded in cencoding.c equal the working tree's .pyx (the compiled code is the source)",
                    not stale, "; ".join("%s:%d %r vs %r" % d for d in stale[:5]))
     root = C.shadow()
+    ctx.extra.setdefault("stream_seconds", {})["coq+translators"] = round(_t.time() - _t0, 1)
     big_stack()
     pq = C.Pqref()
     enums, structs = T.load_idl()
@@ -339,20 +342,27 @@ def _run(ctx):
                     "boundaries, enums over their declared values; built through ThriftObject.from_fields with IDL-consistent i32/i32list markers, "
                     "and parsed from bytes encoded by the proved specification writer; plus untyped random Python objects for the model-as-function "
                     "correspondence; trivial = empty struct; distinct = distinct (stream, tree)") % ", ".join(ROOTS)
-        stream_api(ctx, pq, w, root, enums, structs, specs_names)
-        stream_pickle(ctx, w, enums, structs, specs_names)
-        stream_foreign(ctx, pq, w, root, enums, structs, specs_names)
-        stream_foreign_wide(ctx, pq, w, root, enums, structs, specs_names)
-        stream_generic(ctx, pq, w)
-        stream_dict_eq(ctx, pq, w)
-        stream_boundary(ctx, pq, root, enums, structs)
-        stream_known(ctx, pq, root, enums, structs, specs_names)
-        stream_index(ctx, pq, root, enums, structs, specs_names)
-        stream_struct_sizes(ctx, pq, w, enums, structs, specs_names)
-        stream_files(ctx, pq)
-        stream_edits(ctx, pq)
+        import time as _time
+        secs = ctx.extra.setdefault("stream_seconds", {})
+
+        def timed(name, fn, *a):
+            t0 = _time.time()
+            fn(*a)
+            secs[name] = round(_time.time() - t0, 1)
         from harness import c10_sizes as Z
-        Z.stream_footer_parse(ctx, pq)
+        timed("api", stream_api, ctx, pq, w, root, enums, structs, specs_names)
+        timed("pickle", stream_pickle, ctx, w, enums, structs, specs_names)
+        timed("foreign", stream_foreign, ctx, pq, w, root, enums, structs, specs_names)
+        timed("foreign_wide", stream_foreign_wide, ctx, pq, w, root, enums, structs, specs_names)
+        timed("generic", stream_generic, ctx, pq, w)
+        timed("dict_eq", stream_dict_eq, ctx, pq, w)
+        timed("boundary", stream_boundary, ctx, pq, root, enums, structs)
+        timed("known", stream_known, ctx, pq, root, enums, structs, specs_names)
+        timed("index", stream_index, ctx, pq, root, enums, structs, specs_names)
+        timed("struct_sizes", stream_struct_sizes, ctx, pq, w, enums, structs, specs_names)
+        timed("files", stream_files, ctx, pq)
+        timed("edits", stream_edits, ctx, pq)
+        timed("footer_parse", Z.stream_footer_parse, ctx, pq)
     finally:
         w.close()
         pq.close()
@@ -390,6 +400,9 @@ def translators(ctx):
                                                                            enum_paths=sorted(os.path.join(fp, f) for f in os.listdir(fp) if f.endswith(".py"))),
          "GenCallsitesProofs.v"),
     ]
+    from harness import gentr
+    gentr.run_translator(ctx, "fileops2coq_parse_header", ["fileops2coq.py", "parse_header", os.path.join(fp, "api.py")],
+                         "GenParseHeader.v", "GenParseHeaderProofs.v", "api.ParquetFile._parse_header")
     for name, out, fn, proofs in jobs:
         try:
             open(os.path.join(gen, out), "w").write(fn())
@@ -408,9 +421,10 @@ def translators(ctx):
 
 def stream_api(ctx, pq, w, root, enums, structs, specs_names):
     rng = ctx.rng
-    n = 500 if ctx.quick() else 6000
+    n = 400 if ctx.quick() else 6000
     g = Gen(rng, enums, structs, specs_names, "main")
-    trees = corpus_trees() + large_trees(rng)
+    # quick tier: the 2000-column footer; the 1 MB key-value payload (10 s through the extracted model) runs in the thorough tier
+    trees = corpus_trees() + (large_trees(rng)[:1] if ctx.quick() else large_trees(rng))
     ctx.extra["corpus_cases"] = len(trees)
     for i in range(n):
         rootname = ROOTS[i % len(ROOTS)]
@@ -418,19 +432,19 @@ def stream_api(ctx, pq, w, root, enums, structs, specs_names):
         lens = rng.choice([(1, 2, 3), (1, 14, 15, 16), (1, 2, 100), (1, 15), (2, 16)])
         trees.append(g.struct(rootname, 0, lens))
     encs = pq.batch([("thrift_enc", to_tv(tr)) for tr in trees])
-    keep = []
+    keep, keep_enc = [], []
     for tr, e in zip(trees, encs):
         if len(bytes(e[1])) > cap_lo(tr):
             oversize_case(ctx, pq, root, tr, len(bytes(e[1])), "api")       # may still fit (key-value text enlarges the buffer)
         else:
             keep.append(tr)
+            keep_enc.append(e)
     trees = keep
     impl = []
     for tr in trees:
         impl.append(w.call("api_roundtrip", to_recipe(tr)))
     cmds = []
     for tr, r in zip(trees, impl):
-        cmds.append(("thrift_enc", to_tv(tr)))
         if r[0] == "ok":
             b, x, y, eq, cap = r[1]
             cmds.append(("c_to_bytes", cap, T.pv(x)))
@@ -438,7 +452,7 @@ def stream_api(ctx, pq, w, root, enums, structs, specs_names):
             cmds.append(("idl_dec", tr[1], 0, 0, 1, b))
             cmds.append(("c_typed_ok", tr[1], T.pv(x)))
     outs = iter(pq.batch(cmds))
-    for tr, r in zip(trees, impl):
+    for tr, r, enc in zip(trees, impl, keep_enc):
         st = tree_stats(tr, {})
         case = {"stream": "api", "root": tr[1], "tree": tree_json(tr)}
         ctx.case(case, trivial=(not tr[2]))
@@ -446,7 +460,6 @@ def stream_api(ctx, pq, w, root, enums, structs, specs_names):
         for ln in st.get("list_lens", []):
             ctx.count("api.list_len", ln if ln <= 16 else ">=17")
         ctx.count("api.maxblob", bucket(st.get("maxblob", 0)))
-        enc = next(outs)
         if r[0] != "ok":
             ctx.correspondence("to_bytes(API-built) ~ impl model c_to_bytes", case, "ok", list(r[:3]))
             ctx.fail({"component": "to_bytes", "kind": "crash-or-exception", "stream": "api"}, case, "worker: %r" % (r[:3],))
@@ -575,7 +588,7 @@ def corpus_trees():
 
 def stream_foreign(ctx, pq, w, root, enums, structs, specs_names):
     rng = ctx.rng
-    n = 400 if ctx.quick() else 4000
+    n = 300 if ctx.quick() else 4000
     g = Gen(rng, enums, structs, specs_names, "main")
     trees = []
     for i in range(n):
@@ -777,13 +790,14 @@ def stream_boundary(ctx, pq, root, enums, structs):
     """Statistics(max=<n bytes>) serialises to n + 1 + varint(n) + 1 bytes; the buffer holds exactly 500000."""
     rng = ctx.rng
     over = 1 + 3 + 1          # field header, 3-byte length varint (n >= 16384), stop byte
-    for n in [CAP - over - 2, CAP - over - 1, CAP - over]:
+    for n in ([CAP - over - 1, CAP - over] if ctx.quick() else [CAP - over - 2, CAP - over - 1, CAP - over]):
         tr = ("struct", "Statistics", [(1, "max", "FBinary", ("bin", bytes([rng.randrange(256)]) * n))])
         boundary_case(ctx, pq, root, tr, n + over)
     tr = ("struct", "KeyValue", [(1, "key", "FString", ("str", b"k" * (CAP - over - 7))), (2, "value", "FString", ("str", b"v"))])
     boundary_case(ctx, pq, root, tr, CAP - 7 + 3)
-    tr = ("struct", "ColumnChunk", [(1, "file_path", "FString", ("str", b"p" * (CAP - over - 3))), (2, "file_offset", "FI64", ("i64", 4))])
-    boundary_case(ctx, pq, root, tr, CAP - 3 + 2)
+    if not ctx.quick():
+        tr = ("struct", "ColumnChunk", [(1, "file_path", "FString", ("str", b"p" * (CAP - over - 3))), (2, "file_offset", "FI64", ("i64", 4))])
+        boundary_case(ctx, pq, root, tr, CAP - 3 + 2)
 
 
 def boundary_case(ctx, pq, root, tr, size):
@@ -994,7 +1008,7 @@ def stream_index(ctx, pq, root, enums, structs, specs_names):
     IDL-consistent markers and on specification-encoded bytes; each case in its own subprocess when it holds a list<bool> (read_list
     parses those as structs).  Failures are classified by the list element types involved (open findings, all in .pyx)."""
     rng = ctx.rng
-    n = 90 if ctx.quick() else 900
+    n = 60 if ctx.quick() else 900
     g = Gen(rng, enums, structs, specs_names, "wide")
     w = T.Worker(root, ctx.scratch)
     try:
